@@ -78,6 +78,15 @@ class MapShape:
                 self.fin_loop = n
         need(self.fin_loop is not None, "no loop over the finished batch")
         self.task = self.fin_loop.stmt.target.id
+        self.task_names = {self.task}
+        changed = True
+        while changed:
+            changed = False
+            for nid, sites in self.fl.sites.items():
+                for s in sites:
+                    if s.kind == "assign" and isinstance(s.value, ast.Name) and s.value.id in self.task_names and s.name not in self.task_names and self.cfg.in_loop(nid, self.fin_loop.id):
+                        self.task_names.add(s.name)
+                        changed = True
         # containers initialised before the main loop
         self.containers: dict[str, ast.AST] = {}
         for nid, sites in self.fl.sites.items():
@@ -102,23 +111,7 @@ class MapShape:
                 v = b.get(p)
                 if v and v[0] == "expr" and isinstance(v[1], ast.Name):
                     setattr(self, attr, v[1].id)
-        # twin map: container with stores in both directions X[a] = b ; X[b] = a
-        self.twin = None
-        for name in self.containers:
-            pairs = set()
-            for n in d.own_nodes():
-                if (
-                    isinstance(n, ast.Assign)
-                    and isinstance(n.targets[0], ast.Subscript)
-                    and isinstance(n.targets[0].value, ast.Name)
-                    and n.targets[0].value.id == name
-                    and isinstance(n.targets[0].slice, ast.Name)
-                    and isinstance(n.value, ast.Name)
-                ):
-                    pairs.add((n.targets[0].slice.id, n.value.id))
-            if any((b, a) in pairs for a, b in pairs):
-                self.twin = name
-        # input map: dict built from the future factory's result, subscripted by a task
+        # input map: dict built from the future factory's result
         self.input_map = None
         for name, v in self.containers.items():
             if isinstance(v, ast.DictComp):
@@ -128,6 +121,24 @@ class MapShape:
                 ):
                     self.input_map = name
         need(self.input_map, "input map (future → input) not found")
+        # twin map: another container that receives `X[<future>] = <future>` stores inside
+        # the main loop (pairing of an original with its backup)
+        self.twin = None
+        for name in self.containers:
+            if name == self.input_map:
+                continue
+            for n in d.own_nodes():
+                if (
+                    isinstance(n, ast.Assign)
+                    and isinstance(n.targets[0], ast.Subscript)
+                    and isinstance(n.targets[0].value, ast.Name)
+                    and n.targets[0].value.id == name
+                    and isinstance(n.targets[0].slice, ast.Name)
+                    and isinstance(n.value, ast.Name)
+                    and self.cfg.has(n)
+                    and self.cfg.in_loop(self.cfg.node_of(n), self.main.id)
+                ):
+                    self.twin = name
         self.yields = [n for n in d.own_nodes() if isinstance(n, (ast.Yield, ast.YieldFrom))]
         need(self.yields, "parallel map yields nothing")
 
@@ -257,6 +268,16 @@ def _block_of(d: Def, stmt: ast.AST) -> list[ast.stmt]:
     return [stmt]
 
 
+def _is_exc_call(x: ast.AST, m: "MapShape") -> bool:
+    return (
+        isinstance(x, ast.Call)
+        and isinstance(x.func, ast.Attribute)
+        and x.func.attr == "exception"
+        and isinstance(x.func.value, ast.Name)
+        and x.func.value.id in m.task_names
+    )
+
+
 @rule("MAP-RAISE-1", props=["C08"], floor=2)
 def map_raise(ctx: Ctx) -> None:
     """a failed task's exception is re-raised unless a live or successful twin exists; results
@@ -268,22 +289,26 @@ def map_raise(ctx: Ctx) -> None:
     exc_br = None
     for n in cfg.stmts(ast.If):
         if cfg.in_loop(n.id, m.fin_loop.id):
-            t = n.stmt.test
-            if isinstance(t, ast.Call) and isinstance(t.func, ast.Attribute) and t.func.attr == "exception" and isinstance(t.func.value, ast.Name) and t.func.value.id == m.task:
+            if any(_is_exc_call(x, m) for x in ast.walk(n.stmt.test)):
                 exc_br = n
                 break
-    ctx.need(exc_br is not None, "no `if task.exception():` branch in the finished loop")
+    ctx.need(exc_br is not None, "no branch testing `task.exception()` in the finished loop")
     ynodes = {cfg.node_of(y) for y in m.yields}
-    # (a) yields are reachable only through the no-exception edge
+    # (a) at every yield it is known that the task has no exception
     true_t = cfg.edge_targets(exc_br.id, "true")
     reach_true = set()
     for t in true_t:
         reach_true |= cfg.reachable_from(t, avoid={m.fin_loop.id})
-    bad_y = ynodes & reach_true
-    ctx.ob(d, exc_br.stmt, not bad_y, "a result is yielded only for a task without exception" + ("" if not bad_y else " — a yield is reachable from the exception branch"), sel="raise:yield-clean")
     for y in ynodes:
-        ok = cfg.dominates(exc_br.id, y)
-        ctx.ob(d, cfg.nodes[y].stmt, ok, "every yield is dominated by the `task.exception()` test", sel="raise:yield-dominated")
+        ok = any(_is_exc_call(f, m) and pol is False for f, pol in facts_at(cfg, y))
+        ctx.ob(
+            d,
+            cfg.nodes[y].stmt,
+            ok,
+            "a result is yielded only where `task.exception()` is known to be falsy"
+            + ("" if ok else " — this yield is reachable for a task that failed"),
+            sel="raise:yield-clean",
+        )
     # (b) every way out of the exception branch that is not a raise is guarded by the twin map
     exits = []
     for nid in reach_true:
@@ -355,12 +380,12 @@ def map_once(ctx: Ctx) -> None:
                         continue
                     reads = False
                     if isinstance(fact, ast.Compare) and isinstance(fact.ops[0], (ast.In, ast.NotIn)):
-                        if isinstance(fact.left, ast.Name) and fact.left.id == m.task and isinstance(fact.comparators[0], ast.Name) and fact.comparators[0].id == cont:
+                        if isinstance(fact.left, ast.Name) and fact.left.id in m.task_names and isinstance(fact.comparators[0], ast.Name) and fact.comparators[0].id == cont:
                             reads = True
                     for nm in ast.walk(fact):
                         if isinstance(nm, ast.Name):
                             for s in m.fl.rdefs(nm.id, b):
-                                if s.value is not None and s.kind == "assign" and mentions_name(s.value, cont) and mentions_name(s.value, m.task):
+                                if s.value is not None and s.kind == "assign" and mentions_name(s.value, cont) and mentions_name(s.value, *m.task_names):
                                     reads = True
                     if reads and any(cfg.can_reach(yn, s) or cfg.dominates(s, yn) for s in sites):
                         ok = True
